@@ -23,6 +23,7 @@ def build_pool():
     pool["pf2"] = g.Point([2.0, 4.0, 2.0])  # float dtype, last coordinate != 1
     pool["pcf2"] = g.PointCollection([[1.0, 2.0, 4.0], [3.0, 0.0, -2.0]])
     pool["pf3"] = g.Point([2.0, 4.0, 6.0, 2.0])
+    pool["axf3"] = g.Point(1.0, 2.0, 2.0)  # float, already normalised, not of unit length (rotation axes)
     pool["p2"] = g.Point(1, 2)
     pool["q2"] = g.Point(-3, 0.5)
     pool["r2"] = g.Point(2, -1)
@@ -148,6 +149,16 @@ def operations(pool):
     ops.append(("polyc3.area-then-contains", lambda: (pool["polyc3"].area, pool["polyc3"].contains(g.PointCollection([[0.5, 0.5, 1, 1], [0.5, 0.5, 2, 1]])))))
     ops.append(("poly3.area", lambda: pool["poly3"].area))
     ops.append(("cube.intersect", lambda: pool["cube"].intersect(pool["l3"])))
+    from geometer.transformation import rotation as _rot, translation as _tr, reflection as _refl, scaling as _sc
+    from geometer.shapes import RegularPolygon as _RP
+    for k in ("axf3", "pf3", "p3", "q3"):
+        ops.append(("rotation(axis=%s)" % k, (lambda k=k: _rot(0.7, axis=pool[k]))))
+        ops.append(("translation(%s)" % k, (lambda k=k: _tr(pool[k]))))
+        ops.append(("RegularPolygon(axis=%s)" % k, (lambda k=k: _RP(pool["r3"], 2, 5, axis=pool[k]))))
+    for k in ("pf2", "p2"):
+        ops.append(("translation(%s)" % k, (lambda k=k: _tr(pool[k]))))
+    for k in ("l2", "m2", "e3", "f3"):
+        ops.append(("reflection(%s)" % k, (lambda k=k: _refl(pool[k]))))
     ops.append(("t2**3", lambda: pool["t2"] ** 3))
     ops.append(("t3**-1", lambda: pool["t3"] ** -1))
     return ops
